@@ -78,6 +78,8 @@ VALUES = {
     'l1': lambda: [1],
     'l2': lambda: [2, 3],
     'exc': lambda: ValueError('returned-exception'),
+    'exc_to': lambda: TimeoutError('returned-timeout-object'),      # e.g. `except TimeoutError as err: return err` around an inner wait_for
+    'exc_ce': lambda: asyncio.CancelledError('returned-cancelled-object'),
 }
 
 RTYPES = {None: None, 'int': int, 'str': str, 'dict': dict, 'list': list}
